@@ -1150,3 +1150,467 @@ class Analysis:
                 pi['atoms'] |= g
                 pi['ext'], pi['cont'] = ext, cont
         fn.result = (w, clos)
+
+
+# --------------------------------------------------------------------------------------------------------------------
+# expansion into the IR of theories/Effects.v
+# --------------------------------------------------------------------------------------------------------------------
+def live_attributes(repo):
+    """attribute names of a live r3 object, exactly the object tools/gen.py:live_kinds builds (without calculate_shear)"""
+    sys.path.insert(0, repo)
+    os.environ.setdefault('MPLBACKEND', 'Agg')
+    import logging
+    logging.disable(logging.CRITICAL)
+    import importlib
+    for m in [m for m in sys.modules if m == 'qsc' or m.startswith('qsc.')]:
+        del sys.modules[m]
+    qsc = importlib.import_module('qsc')
+    if os.path.realpath(os.path.dirname(qsc.__file__)) != os.path.realpath(os.path.join(repo, 'qsc')):
+        raise EffectError('%s: qsc was imported from %s' % (repo, qsc.__file__))
+    q = qsc.Qsc(rc=[1, 0.09, 0.01], zs=[0, -0.08, 0.01], rs=[0, 0.01, 0.0], zc=[0, 0.01, 0.0], nfp=2, etabar=0.9,
+                sigma0=0.1, I2=0.5, B0=1.1, B2c=-0.3, B2s=0.2, p2=-1000.0, order='r3', nphi=9)
+    logging.disable(logging.NOTSET)
+    return list(q.__dict__.keys())
+
+
+def cq(s):
+    return '"' + s.replace('"', '""') + '"'
+
+
+class Expander:
+    def __init__(self, A, live):
+        self.A = A
+        self.live = list(live)
+        self.recomputed = [a for a in RECOMPUTED]
+        self.protected = [a for a in self.live if a not in RECOMPUTED]
+        self.pset = set(self.protected)
+        self.versions = {}
+        self.setattr_ir = {}      # (fn key, effect index) -> list of (stmt, prov)
+        self.site_info = []
+
+    def gclos(self, fn, atoms):
+        w, clos = fn.result
+        return ground(close_atoms(atoms, clos), fn)
+
+    @staticmethod
+    def prefer_direct(g):
+        """drop the view variant of an origin when the direct one is present"""
+        return {(k, n, w) for (k, n, w) in g if not (w and (k, n, False) in g)}
+
+    def build_versions(self):
+        sites = {}     # attr -> list of (fn key, idx, line, loc, ground atoms)
+        for key, fn in self.A.fns.items():
+            w, clos = fn.result
+            for i, ef in enumerate(w.effects):
+                if ef[0] != 'setattr':
+                    continue
+                a, atoms, loc, line = ef[1], ef[2], ef[3], ef[4]
+                g = self.prefer_direct(self.gclos(fn, atoms))
+                if any(k == 'ANY' for (k, n, v) in g):
+                    raise EffectError('%s: self.%s is bound to an attribute selected at run time' % (loc, a))
+                g = {(k, n, v) for (k, n, v) in g if not (k in ('A', 'D') and n == a)}   # a flow from a to itself adds nothing
+                sites.setdefault(a, []).append((key, i, line, loc, g))
+        # topological order of the attribute-to-attribute flows
+        deps = {a: {n for (_, _, _, _, g) in ss for (k, n, v) in g if k in ('A', 'D')} for a, ss in sites.items() if a not in self.pset}
+        order, done, active = [], set(), []
+
+        def visit(a):
+            if a in done:
+                return
+            if a in active:
+                s = sites[a][0]
+                raise EffectError('%s: cyclic attribute-to-attribute flow %s' % (s[3], ' -> '.join(active[active.index(a):] + [a])))
+            active.append(a)
+            for b in sorted(deps.get(a, ())):
+                if b in deps:
+                    visit(b)
+            active.pop()
+            done.add(a)
+            order.append(a)
+        for a in sorted(deps):
+            visit(a)
+        for a in order:
+            names = [a]
+            used = set()
+            for (key, i, line, loc, g) in sites[a]:
+                stmts = []
+                for (k, n, v) in sorted(g, key=str):
+                    if k == 'F':
+                        srcs = [('new', 'Fresh')]
+                    else:
+                        srcs = [(wv, '%s %s' % ('ViewOfAttr' if v else 'AttrOf', cq(wv))) for wv in self.vers(n)]
+                    for org, rhs in srcs:
+                        nm = '%s@%s:%d~%s' % (a, key, line, org)
+                        while nm in used:
+                            nm += "'"
+                        used.add(nm)
+                        names.append(nm)
+                        stmts.append(('SetAttr %s %s' % (cq(nm), '(%s)' % rhs if rhs != 'Fresh' else rhs), loc))
+                self.setattr_ir[(key, i)] = stmts
+                self.site_info.append(dict(attr=a, fn=key, where=loc, origins=sorted('%s%s%s' % (k, ':' + n if n else '', "'" if v else '') for (k, n, v) in g)))
+            self.versions[a] = names
+        for a, ss in sites.items():
+            if a in self.pset:
+                for (key, i, line, loc, g) in ss:
+                    stmts = []
+                    for (k, n, v) in sorted(g, key=str) or [FRESH_ATOM]:
+                        for rhs in (['Fresh'] if k == 'F' else ['(%s %s)' % ('ViewOfAttr' if v else 'AttrOf', cq(wv)) for wv in self.vers(n)]):
+                            stmts.append(('SetAttr %s %s' % (cq(a), rhs), loc))
+                    self.setattr_ir[(key, i)] = stmts
+                    self.site_info.append(dict(attr=a, fn=key, where=loc, protected=True, origins=['(re-binds a protected attribute)']))
+        self.set_sites = sites
+
+    def vers(self, a):
+        return self.versions.get(a, [a])
+
+    def universe(self):
+        u = list(self.live)
+        for a in self.versions:
+            if a not in u:
+                u.append(a)
+        return u
+
+    def origins(self, g):
+        """ground atoms -> list of (origin tag, rhs text)"""
+        g = self.prefer_direct(g)
+        out = []
+        if any(k == 'ANY' for (k, n, v) in g):
+            g = {x for x in g if x[0] == 'F'} | {('A', a, False) for a in self.universe()}
+        for (k, n, v) in sorted(g, key=lambda t: (t[0] != 'F', str(t))):
+            if k == 'F':
+                out.append(('new', 'Fresh'))
+            elif k in ('A', 'D'):
+                for wv in self.vers(n):
+                    out.append((wv + ("'" if v else ''), '(%s %s)' % ('ViewOfAttr' if v else 'AttrOf', cq(wv))))
+            else:
+                raise EffectError('internal: unexpected atom %r' % ((k, n, v),))
+        seen, res = set(), []
+        for o in out:
+            if o[0] not in seen:
+                seen.add(o[0]); res.append(o)
+        return res
+
+    def expand_fn(self, fn):
+        w, clos = fn.result
+        first = {x: min([s.line for s in ss] or [0]) for x, ss in w.sites.items()}
+        irnames = {}
+        binds = []
+        for x in sorted(clos, key=lambda x: (first.get(x, 0), x)):
+            if x.endswith('<ret>'):
+                continue
+            names = []
+            for org, rhs in self.origins(ground(clos[x], fn)):
+                nm = '%s~%s' % (x, org)
+                names.append(nm)
+                binds.append(('Bind %s %s' % (cq(nm), rhs), '%s:%d' % (fn.file, first.get(x, 0))))
+            irnames[x] = names
+
+        def targets(atoms, loc):
+            """IR store statements for a store through something with these raw atoms"""
+            out = []
+            for (k, n, v) in sorted(atoms, key=str):
+                if k == 'V':
+                    out += [('StoreVar %s' % cq(nm), loc) for nm in irnames.get(n, [])]
+                elif k in ('A', 'D'):
+                    out += [('StoreAttr %s' % cq(wv), loc) for wv in self.vers(n)]
+                elif k == 'ANY':
+                    out += [('StoreAttr %s' % cq(wv), loc) for a in self.universe() for wv in self.vers(a)]
+                elif k == 'P':
+                    out += [('StoreVar %s' % cq(nm), loc) for nm in irnames.get(n, [])]
+            return out
+        effects = []
+        for i, ef in enumerate(w.effects):
+            if ef[0] == 'store':
+                effects += targets(ef[1], ef[2])
+            elif ef[0] == 'pass':
+                for (k, n, v) in sorted(ef[1], key=str):
+                    effects += [('PassVar %s true' % cq(nm), ef[2]) for nm in irnames.get(n, [])]
+            elif ef[0] == 'setattr':
+                effects += self.setattr_ir.get((fn.key, i), [])
+            elif ef[0] == 'call':
+                effects.append(('CallSelf %s' % cq(ef[1]), ef[3]))
+                for q in sorted(self.A.fns[ef[1]].summary['stored']):
+                    effects += targets(ef[2].get(q, ()), ef[3])
+        # drop immediate duplicates
+        def dedupe(l):
+            out = []
+            for s in l:
+                if not out or out[-1] != s:
+                    out.append(s)
+            return out
+        return dedupe(binds), dedupe(effects), irnames
+
+    def reads_sets(self):
+        """per function: real attributes that may flow into a local / a store / an attribute, and attributes set (transitively)"""
+        reads, sets, stores, callees = {}, {}, {}, {}
+        for key, fn in self.A.fns.items():
+            w, clos = fn.result
+            r = set()
+            allat = [a for c in clos.values() for a in ground(c, fn)]
+            for ef in w.effects:
+                if ef[0] == 'setattr':
+                    allat += list(self.gclos(fn, ef[2]))
+                elif ef[0] == 'store':
+                    allat += list(self.gclos(fn, ef[1]))
+                elif ef[0] == 'call':
+                    for q in self.A.fns[ef[1]].summary['stored']:
+                        allat += list(self.gclos(fn, ef[2].get(q, ())))
+            for (k, n, v) in allat:
+                if k in ('A', 'D'):
+                    r.add(n)
+                elif k == 'ANY':
+                    r |= set(self.universe())
+            reads[key] = r
+            sets[key] = {ef[1] for ef in w.effects if ef[0] == 'setattr'}
+            st = set()
+            for ef in w.effects:
+                if ef[0] == 'store':
+                    for (k, n, v) in self.gclos(fn, ef[1]):
+                        if k in ('A', 'D'):
+                            st.add(n)
+                        elif k == 'ANY':
+                            st.add('<any attribute>')
+                elif ef[0] == 'call':
+                    for q in self.A.fns[ef[1]].summary['stored']:
+                        for (k, n, v) in self.gclos(fn, ef[2].get(q, ())):
+                            if k in ('A', 'D'):
+                                st.add(n)
+            stores[key] = st
+            callees[key] = list(w.callees)
+        def trans(tab):
+            out = {}
+            def go(k, seen):
+                if k in out:
+                    return out[k]
+                if k in seen:
+                    raise EffectError('%s: recursion through %s' % (self.A.fns[k].file, k))
+                r = set(tab[k])
+                for c in callees[k]:
+                    r |= go(c, seen | {k})
+                out[k] = r
+                return r
+            for k in tab:
+                go(k, set())
+            return out
+        return reads, sets, stores, callees, trans(reads), trans(sets), trans(stores)
+
+
+# --------------------------------------------------------------------------------------------------------------------
+# a Python mirror of Effects.check_calls -- DIAGNOSTIC ONLY (tells which statement the Coq checker rejects)
+# --------------------------------------------------------------------------------------------------------------------
+def mirror_check(table, protected, names):
+    """table: dict name -> list of (stmt text, prov).  -> (accepted, message, final tainted attrs)"""
+    import re
+    rx = re.compile(r'^(Bind|SetAttr|StoreVar|StoreAttr|CallSelf|PassVar) "((?:[^"]|"")*)"(?: (.*))?$')
+    parsed = {}
+    for f, body in table.items():
+        l = []
+        for text, prov in body:
+            m = rx.match(text)
+            op, name, rest = m.group(1), m.group(2).replace('""', '"'), (m.group(3) or '').strip()
+            src = None
+            if rest.startswith('('):
+                kind, arg = rest[1:-1].split(' ', 1)
+                src = (kind, arg[1:-1].replace('""', '"'))
+            elif rest == 'Fresh':
+                src = ('Fresh', None)
+            l.append((op, name, src, text, prov))
+        parsed[f] = l
+    P = set(protected)
+
+    def tainted(src, ta, tv):
+        if src[0] == 'Fresh':
+            return False
+        return src[1] in (ta if src[0] in ('AttrOf', 'ViewOfAttr') else tv)
+
+    def call(f, ta, depth, stack):
+        if depth == 0:
+            return None, 'call depth exhausted at %s' % f
+        if f not in parsed:
+            return None, 'unknown callee %s' % f
+        tv = set()
+        for (op, name, src, text, prov) in parsed[f]:
+            where = '%s  [%s]  in %s' % (text, prov, ' > '.join(stack + [f]))
+            if op == 'Bind':
+                (tv.add if tainted(src, ta, tv) else tv.discard)(name)
+            elif op == 'SetAttr':
+                if name in P:
+                    return None, 're-binds a protected attribute: ' + where
+                ta = (ta | {name}) if tainted(src, ta, tv) else (ta - {name})
+            elif op == 'StoreVar':
+                if name in tv:
+                    return None, 'in-place write through a local that may alias protected memory: ' + where
+            elif op == 'StoreAttr':
+                if name in ta:
+                    return None, 'in-place write into an attribute that may alias protected memory: ' + where
+            elif op == 'CallSelf':
+                ta, msg = call(name, ta, depth - 1, stack + [f])
+                if ta is None:
+                    return None, msg
+        return ta, ''
+    ta = set(protected)
+    for f in names:
+        ta, msg = call(f, ta, len(table), [])
+        if ta is None:
+            return False, msg, None
+    return True, '', ta
+
+
+# --------------------------------------------------------------------------------------------------------------------
+def write_coq(path, repo, table, entry, protected, recomputed, reps):
+    def ident(f):
+        return 'm_' + ''.join(c if c.isalnum() else '_' for c in f)
+
+    def chunks(nm, items, f):
+        parts = []
+        for i in range(0, max(len(items), 1), 150):
+            pn = '%s_%d' % (nm, i // 150)
+            f.write('Definition %s : method :=\n  [ %s ].\n' % (pn, ';\n    '.join(items[i:i + 150])))
+            parts.append(pn)
+        f.write('Definition %s : method := (%s)%%list.\n' % (nm, ' ++ '.join(parts)))
+    with open(path, 'w') as f:
+        f.write('(* GENERATED by tools/gen_eff.py from %s -- do not edit *)\n' % repo)
+        f.write('From Coq Require Import List String. From QSC Require Import Effects. Import ListNotations. Open Scope string_scope.\n\n')
+        for key, (binds, effects, R) in table.items():
+            f.write('(* %s : %d Binds, %d effect statements, body repeated %d time(s) *)\n' % (key, len(binds), len(effects), R))
+            chunks(ident(key) + '_binds', [b for b, _ in binds], f)
+            chunks(ident(key) + '_effects', [b for b, _ in effects], f)
+            body = '%s_binds ++ %s_binds ++ %s_effects' % ((ident(key),) * 3)
+            f.write('Definition %s_body : method := (%s)%%list.\n' % (ident(key), body))
+            f.write('Definition %s : method := (%s)%%list.\n\n' % (ident(key), ' ++ '.join([ident(key) + '_body'] * R)))
+        f.write('Definition eff_table : table :=\n  [ %s ].\n\n' % ';\n    '.join('(%s, %s)' % (cq(k), ident(k)) for k in table))
+        for nm, l in (('eff_entry', entry), ('eff_protected', protected), ('eff_recomputed', recomputed)):
+            f.write('Definition %s : list string :=\n  [ %s ].\n\n' % (nm, '; '.join(cq(x) for x in l)))
+
+
+def write_check(path):
+    with open(path, 'w') as f:
+        f.write('''(* GENERATED by tools/gen_eff.py -- do not edit *)
+From Coq Require Import List String.
+From QSC Require Import Effects.
+From QSCGen Require Import G_effects.
+Import ListNotations. Open Scope string_scope.
+
+(* every C17 entry point twice: once in the listed order, once in the reverse order *)
+Definition C17_sequence : list string := (eff_entry ++ rev eff_entry)%list.
+
+Lemma C17_accepts : accepts eff_table eff_protected C17_sequence = true.
+Proof. vm_compute. reflexivity. Qed.
+
+(* every entry point alone, on a freshly constructed object *)
+Lemma C17_accepts_each : forallb (fun f => accepts eff_table eff_protected [f]) eff_entry = true.
+Proof. vm_compute. reflexivity. Qed.
+
+Theorem C17_protected_unchanged : forall fuel s s',
+  Inv eff_protected eff_protected [] s ->
+  run_sequence eff_table fuel C17_sequence s s' ->
+  protected_unchanged eff_protected s s'.
+Proof. intros fuel s s' HI Hr. exact (accepts_sound _ _ _ fuel s s' C17_accepts HI Hr). Qed.
+Print Assumptions C17_protected_unchanged.
+''')
+
+
+def main():
+    ap = argparse.ArgumentParser()
+    ap.add_argument('--repo', default='/repo')
+    ap.add_argument('--out', default=os.path.join(ROOT, 'coq', 'gen'))
+    ap.add_argument('--gprops', default=os.path.join(ROOT, 'coq', 'gprops'))
+    ap.add_argument('--explain', action='store_true', help='print which statement the checker rejects (Python mirror of the checker)')
+    a = ap.parse_args()
+    t0 = time.time()
+    repo = os.path.abspath(a.repo)
+    try:
+        A = Analysis(repo)
+        A.run()
+        live = live_attributes(repo)
+        X = Expander(A, live)
+        X.build_versions()
+        reads, sets, stores, callees, treads, tsets, tstores = X.reads_sets()
+        table, irn = {}, {}
+        for key, fn in A.fns.items():
+            binds, effects, irnames = X.expand_fn(fn)
+            hop = {x for x in (treads[key] & tsets[key]) if x not in X.pset}
+            table[key] = (binds, effects, 1 + len(hop))
+            irn[key] = irnames
+    except EffectError as ex:
+        print('EFFECT-ERROR %s' % ex)
+        return 2
+    os.makedirs(a.out, exist_ok=True)
+    os.makedirs(a.gprops, exist_ok=True)
+    write_coq(os.path.join(a.out, 'G_effects.v'), repo, table, ENTRY, X.protected, X.recomputed, None)
+    write_check(os.path.join(a.gprops, 'C17_check.v'))
+    # ---- manifest ----
+    man = dict(repo=repo, entry=ENTRY, protected=X.protected, recomputed=X.recomputed, iterations=A.iterations,
+               attribute_versions={k: v for k, v in X.versions.items()}, setattr_sites=X.site_info,
+               spline_attributes=sorted(A.pkg.spline_attrs), methods={}, unclassified=[],
+               assumptions=['A6: user-supplied arguments of entry points do not alias the object\'s arrays',
+                            'external libraries never write into arrays they are given (trusted list below)',
+                            'objects returned by external libraries are new objects'])
+    trusted = set()
+    dkeys = {}
+    reach = set()
+
+    def mark(k):
+        if k not in reach:
+            reach.add(k)
+            for c in callees[k]:
+                mark(c)
+    for k in ENTRY:
+        mark(k)
+    for key, fn in A.fns.items():
+        w, clos = fn.result
+        trusted |= w.trusted
+        for k, v in w.dkeys.items():
+            dkeys.setdefault(k, set()).update(v)
+        binds, effects, R = table[key]
+        aliases = {}
+        for x, c in clos.items():
+            at = sorted({n + ("'" if v else '') if k != 'ANY' else '<any attribute>' for (k, n, v) in ground(c, fn) if k in ('A', 'D', 'ANY')})
+            if at:
+                aliases[x] = at
+        rg = ground(fn.summary['ret'], fn)
+        man['methods'][key] = dict(
+            file=fn.file, line=fn.node.lineno, entry=key in ENTRY, reachable_from_entry=key in reach,
+            object_parameter=fn.selfparam, statements=(2 * len(binds) + len(effects)) * R, binds=len(binds),
+            effects=len(effects), repetitions=R,
+            sets=sorted(sets[key]), sets_new=sorted(x for x in sets[key] if x not in live),
+            sets_existing=sorted(x for x in sets[key] if x in live), stores_in_place=sorted(stores[key]),
+            callees=callees[key], sets_transitive=sorted(tsets[key]), stores_transitive=sorted(tstores[key]),
+            local_may_alias=aliases,
+            returns=sorted({('view of ' if v else '') + (n or 'new object') if k != 'ANY' else '<any attribute>' for (k, n, v) in rg}),
+            returns_attrs=sorted({n if k != 'ANY' else '<any attribute>' for (k, n, v) in rg if k in ('A', 'D', 'ANY')}),
+            returns_alias_of_protected=sorted({n for (k, n, v) in rg if k == 'A' and n in X.pset}),
+            parameters_stored_through=sorted(fn.summary['stored']), trusted_calls=sorted(w.trusted), unclassified=[])
+    # which attributes the value bound to a (new) attribute may share memory with, per method, transitively
+    own = {}
+    for si in X.site_info:
+        d = own.setdefault(si['fn'], {}).setdefault(si['attr'], set())
+        for o in si['origins']:
+            if o.startswith(('A:', 'D:')):
+                d.add(o[2:].rstrip("'"))
+    def set_origins(k, seen=()):
+        out = {a: set(v) for a, v in own.get(k, {}).items()}
+        for c in callees[k]:
+            if c not in seen:
+                for a, v in set_origins(c, seen + (k,)).items():
+                    out.setdefault(a, set()).update(v)
+        return out
+    for key in man['methods']:
+        man['methods'][key]['set_origin_attrs_transitive'] = {a: sorted(v) for a, v in set_origins(key).items()}
+    man['trusted_summaries'] = sorted(trusted)
+    man['default_dict_keys_written'] = {k: sorted(v) for k, v in dkeys.items()}
+    flat = {k: [(s, p) for s, p in (b + b + e) * R] for k, (b, e, R) in table.items()}
+    ok, msg, ta = mirror_check(flat, X.protected, ENTRY + ENTRY[::-1])
+    man['mirror_check'] = dict(accepted=ok, message=msg, tainted_after=sorted(ta) if ta is not None else None)
+    json.dump(man, open(os.path.join(a.out, 'effects_manifest.json'), 'w'), indent=1)
+    n = sum(v['statements'] for v in man['methods'].values())
+    print('gen_eff: %d methods, %d IR statements, %d protected attributes, %d trusted summaries, %.1fs' %
+          (len(table), n, len(X.protected), len(trusted), time.time() - t0))
+    print('gen_eff: checker mirror (diagnostic): %s' % ('ACCEPT' if ok else 'REJECT -- ' + msg))
+    if a.explain and not ok:
+        print('EFFECT-REJECT %s' % msg)
+    return 0
+
+
+if __name__ == '__main__':
+    sys.exit(main())
